@@ -264,6 +264,60 @@ def nested_case(target, x):
     return prog, (inp.replace("@X", jt) if inp is not None else None), want
 
 
+# ------------------------------------------------------------------ several wide fields in one printf call
+MW_ARGS = {"s": ("\"x\"", "x"), "f": ("2.5", "2.5"), "v": ("[1]", "[1]")}
+
+
+def multi_width_case(fields, calls=1):
+    """fields: list of (width, verb, zero) with width possibly negative.  Every width within the limit => the call works."""
+    fmt, args, out, ok = [], [], [], True
+    for w, verb, zero in fields:
+        src, text = MW_ARGS[verb]
+        fmt.append("%" + ("-" if w < 0 else "") + ("0" if zero else "") + str(abs(w)) + verb)
+        args.append(src)
+        if abs(w) > WIDTH:
+            ok = False
+        pad = ("0" if zero else " ") * max(0, abs(w) - len(text))
+        out.append(text + pad if w < 0 else pad + text)
+    stmt = "printf(\"%s|\\n\", %s)" % ("|".join(fmt), ", ".join(args))
+    prog = "BEGIN { print \"start\"\n " + "\n ".join([stmt] * calls) + "\n print \"done\" }"
+    want = ("ok", "start\n" + ("|".join(out) + "|\n") * calls + "done\n") if ok else ("runtime", "start\n")
+    total = sum(abs(w) for w, _, _ in fields)
+    meta = {"limit": "printf width", "spec": "%d fields in one call, widths %s%s: every width %s, their sum is %d" % (
+        len(fields), ",".join(str(w) for w, _, _ in fields[:20]), "..." if len(fields) > 20 else "",
+        "within the limit" if ok else "NOT all within the limit", total), "calls": calls}
+    return prog, want, meta, (total * calls > 70000 or len(prog) > 8000)
+
+
+def multi_width_cases(rng, tier):
+    quick = tier == "quick"
+    S = lambda ws, verb="s": [(w, verb, False) for w in ws]
+    lists = [S([4000] * 17), S([40000, -40000]), S([WIDTH, WIDTH]), S([WIDTH, 1]), S([WIDTH - 1, 2]), S([1, WIDTH]), S([-WIDTH, WIDTH, -WIDTH]),
+             S([32768, 32768]), S([32768, 32769]), S([32769, -32769]), S([30000, 30000, 30000]), S([1000] * 100), S([30] * 3000),
+             S([-4000] * 17), S([4000, -4000] * 9), S([40000, 40000], "v"), S([-40000, 40000], "f"), [(40000, "f", True), (40000, "f", True)],
+             [(4000, rng.choice("sfv"), False) for _ in range(17)], S([WIDTH // 2 + 1] * 2), S([WIDTH // 3 + 1] * 3), S([WIDTH // 5 + 1] * 5),
+             S([22000, 22000, 22000]), S([65000, 600]), S([600, 65000]),
+             # one width beyond the limit among accepted ones: refused as before, whatever precedes it
+             S([4000, WIDTH + 1]), S([WIDTH + 1, 4000]), S([40000, 40000, WIDTH + 1]), S([10, -(WIDTH + 1), 10])]
+    for _ in range(8 if quick else 120):
+        n = rng.randint(2, 24)
+        target = rng.randint(WIDTH + 1, 3 * WIDTH)
+        ws = []
+        for i in range(n):
+            w = min(WIDTH, max(1, int(target / n * rng.uniform(0.5, 1.5))))
+            ws.append(w if rng.random() < 0.6 else -w)
+        fields = []
+        for w in ws:
+            verb = rng.choice("ssfv")
+            fields.append((w, verb, verb == "f" and w > 0 and rng.random() < 0.3))
+        lists.append(fields)
+    out = [multi_width_case(f) for f in lists]
+    # the same over several calls of one run
+    out.append(multi_width_case(S([40000]), calls=2))
+    out.append(multi_width_case(S([30000, 30000]), calls=3))
+    return out
+
+
 def _cap_limits():
     try:
         resource.setrlimit(resource.RLIMIT_CORE, (0, 0))
@@ -291,7 +345,8 @@ class C20(Check):
             "into an array that the assignment itself creates under 1-3 missing members (a.b[x], a.b.c.d[x], seen[i][x], $.new[x], "
             "the index taken from the input, += / ++ / nested stores, in functions / loops / match bodies; 32 targets), the huge "
             "ones through the jqawk binary in one memory-capped process each; printf widths "
-            "65535..65537, 20 digits, negative, zero-padded; JSON input nested 9999..10002 deep (arrays, objects, mixed); the documented "
+            "65535..65537, 20 digits, negative, zero-padded; several wide fields in ONE printf (2-3000 fields, each width within the limit, "
+            "their sum up to 3x beyond it: must work; one field beyond the limit among them: refused); JSON input nested 9999..10002 deep (arrays, objects, mixed); the documented "
             "'works' cases (1000-deep recursion, width 5000, 100000-element array). Output is printed before every critical step. "
             "non-trivial = within +-2 of a limit, or beyond it")
 
@@ -521,6 +576,16 @@ class C20(Check):
                                      "input": inp, "want": list(want), "how": "jqawk binary, RLIMIT_AS %d MiB" % (MEM_CAP >> 20)}, True, ("nested-cli",))
                 self._nested.append((c, prog, inp, want))
                 cases.append(c)
+        # SEVERAL wide fields in one printf: the limit is on each width, not on what one call (or one run) pads in total
+        for k, (prog, want, meta, heavy) in enumerate(multi_width_cases(rng, tier)):
+            cid = "w%d" % k
+            meta = dict(meta, prog=prog if len(prog) < 3000 else prog[:3000] + "...", want=list(want), inputs=[])
+            if heavy:
+                c = Case(cid, None, dict(meta, impl_only="too much output for the extracted model: implementation only"), True, ("big",))
+                self._big.append((c, simple_run(cid, prog, [], [], True)))
+                cases.append(c)
+            else:
+                cases.append(Case(cid, simple_run(cid, prog, [], [], True), meta, True))
         return cases
 
     def oracle(self, case, impl):
